@@ -1,5 +1,6 @@
 import RLV.Lemmas.MenuCycle
 import RLV.Lemmas.MenuCycleBack
+import RLV.Lemmas.MenuGroups
 /-! C15 — Menu completion cycles through every candidate exactly once (property theorems).
 
 `Menu2.move` is the stage-wise model of `(*group).moveSelector` for plain (non-aliased) groups
@@ -11,8 +12,10 @@ definition for its plain groups. `tab` is one `menu-complete` inside a group: a 
 
 Proved for every `n`, `c`, and every valid starting cell — no bound on the number of candidates,
 columns, rows or presses — forwards (`menu-complete`) and backwards (`menu-complete-backward`:
-`tabBack`, a move back and on `done` the last cell). Aliased (shared-description) groups and the
-hand-over between several groups are decided by the correspondence and by sessions, not by a theorem. -/
+`tabBack`, a move back and on `done` the last cell). The hand-over between SEVERAL groups (tags) is proved
+forwards on the menu model itself (`Menu.select`, the function the differential runs): any number of
+plain groups of any shapes. Aliased (shared-description) groups and the backward hand-over between groups
+are decided by the correspondence and by sessions, not by a theorem. -/
 namespace RLV.Props.C15
 open RLV RLV.Menu2 RLV.Core
 
@@ -90,5 +93,42 @@ example : Grid grid7 7 3 ∧ Valid grid7 ∧ idx grid7 3 = 0 := by
   intro y hy
   have : y < 2 := by simp [grid7] at hy; omega
   simp [grid7, this]
+
+/-! ### Several groups (tags)
+
+`Menu.MInv m ns cs i`: a menu of plain, non-empty groups — group `j` has `ns[j]` candidates in rows of
+`cs[j]` —, group `i` (and no other) current, its selector on a candidate. `Menu.gpos` is the position of
+the selector among ALL the candidates, group after group. -/
+
+/-- One `menu-complete` over any number of groups moves to the next candidate of the whole menu — the
+next one of the current group, the first of the next group after the last one, the first of the first
+group after the very last —, never fails, returns a candidate, and keeps the menu well formed. -/
+theorem tab_over_groups_advances_by_one_mod_total (m : Menu.Menu) (ns cs : List Nat) (i : Nat)
+    (h : Menu.MInv m ns cs i) (hlen : ns.length = m.length) :
+    ∃ m' v i', Menu.select m 1 0 = .ok (m', some v) ∧ Menu.MInv m' ns cs i' ∧
+      Menu.gpos m' ns cs i' = (Menu.gpos m ns cs i + 1) % (ns.sum : Int) := by
+  obtain ⟨m', v, i', h1, h2, _, h3, _, _⟩ := Menu.select_gpos m ns cs i h hlen
+  exact ⟨m', v, i', h1, h2, h3⟩
+
+/-- After `k` presses the selector is on candidate `(p + k) mod N` of the whole menu (`N` the total
+number of candidates): `N` presses visit every candidate of every group exactly once and come back. -/
+theorem cycle_over_groups_visits_each_once (m : Menu.Menu) (ns cs : List Nat) (i k : Nat)
+    (h : Menu.MInv m ns cs i) (hlen : ns.length = m.length) :
+    ∃ m' i', Menu.presses k m = .ok m' ∧ Menu.MInv m' ns cs i' ∧
+      Menu.gpos m' ns cs i' = (Menu.gpos m ns cs i + k) % (ns.sum : Int) := by
+  obtain ⟨m', i', h1, h2, _, h3⟩ := Menu.presses_gpos ns cs k m i h hlen
+  exact ⟨m', i', h1, h2, h3⟩
+
+-- non-vacuity: two groups, 3 candidates in rows of 2 (ids 10 11 / 12) and 2 candidates in one row
+-- (20 21), the first group current on its last candidate: one press goes to 20, three more to 11
+def menu2 : Menu.Menu :=
+  [{ rows := [[10, 11], [12]], ncols := 2, maxX := 2, maxY := 2, posX := 0, posY := 1, isCurrent := true },
+   { rows := [[20, 21]], ncols := 2, maxX := 2, maxY := 1 }]
+example : (match Menu.select menu2 1 0 with
+    | .ok (m1, some v) => v == 20 && (match Menu.presses 3 m1 with
+        | .ok m4 => (match Menu.selected (m4.getD 0 Menu.dflt) with | .ok w => w == 11 | _ => false) &&
+            (m4.getD 0 Menu.dflt).isCurrent
+        | _ => false)
+    | _ => false) = true := by decide
 
 end RLV.Props.C15
